@@ -1,6 +1,28 @@
 package main
 
-import "time"
+import (
+	"strings"
+	"time"
+)
+
+// directMapField: a named struct with a map field whose key and value are basic types.
+func directMapField(n *Ty) bool {
+	if n.Under == nil || n.Under.K != "struct" {
+		return false
+	}
+	ok := false
+	for _, f := range n.Under.Fields {
+		if f.T.K == "map" {
+			if f.T.Elem.K != "basic" {
+				return false
+			}
+			ok = true
+		} else if f.T.contains(func(x *Ty) bool { return x.K == "map" }) {
+			return false
+		}
+	}
+	return ok
+}
 
 func propSpecs() map[string]*PropSpec {
 	quickBounds := func(tier string) Bounds {
@@ -35,7 +57,30 @@ func propSpecs() map[string]*PropSpec {
 			return tier == "quick" && kind == "trans" && in.Tags["map"]
 		},
 		Outside: []string{"NaN", "cyclic values", "reflect/unsafe path", "values larger than the bounds"}})
-	add(&PropSpec{ID: "C04", Title: "Derived Hash respects Equal", Gen: genC04,
+	add(&PropSpec{ID: "C04", Title: "Derived Hash respects Equal", Gen: genC04, AbstractMul: true,
+		Filter: func(in Inst, tier string) bool {
+			if in.Tags["userEqual"] {
+				return false // a user Equal that ignores a field cannot be matched by a derived Hash
+			}
+			// maps nested inside other containers need minutes per hash query (sorted keys under independent
+			// iteration orders feeding 31*h+x chains): outside the registered bounds of both tiers
+			if in.Tags["map"] && in.T.K != "map" && !(in.T.K == "ptr" && in.T.Elem.K == "named" && directMapField(in.T.Elem)) {
+				return false
+			}
+			if in.T.K == "map" && in.T.Elem.contains(func(x *Ty) bool { return x.K == "map" || x.K == "slice" }) {
+				return false
+			}
+			if tier == "quick" && in.T.K == "map" {
+				// quick: maps with scalar keys and scalar values only
+				simple := func(t *Ty) bool {
+					return !t.contains(func(x *Ty) bool { return x.K == "struct" || x.K == "ptr" || (x.K == "basic" && strings.HasPrefix(x.Name, "complex")) })
+				}
+				if !simple(in.T.Key) || !simple(in.T.Elem) || in.T.Elem.K == "array" {
+					return false
+				}
+			}
+			return true
+		},
 		Outside: []string{"NaN", "cyclic values", "reflect/unsafe path", "values larger than the bounds", "hashing across processes other than through map iteration order"}})
 	add(&PropSpec{ID: "C05", Title: "DeepCopy and Clone produce an equal, fully independent copy", Gen: genC05,
 		Outside: []string{"cyclic values", "destinations sharing memory with the source", "reflect/unsafe path"}})
